@@ -37,7 +37,7 @@ Forms(k, i) == LET S == UpSeq(ShortForm(k.name))
 NearMiss(k, i, others) ==
   LET S == UpSeq(ShortForm(k.name))
       L == LongForm(k.name)
-  IN {SubSeq(S, 1, Len(S) - 1), S \o <<ZED>>, L \o <<ZED>>, <<>>}
+  IN {SubSeq(S, 1, Len(S) - 1), S \o <<ZED>>, L \o <<ZED>>, <<>>, S \o <<35>>}      \* 35: the '#' of the pattern syntax is no header character
      \cup (IF Len(L) > Len(S) THEN {SubSeq(L, 1, Len(S) + 1), SubSeq(L, 1, Len(L) - 1)} ELSE {})
      \cup (IF k.num THEN {S \o Digits1(i) \o <<ZED>>, L \o <<ZED>> \o Digits1(i), <<49>> \o S}
            ELSE {S \o <<49>>, L \o <<50, 51>>})
